@@ -87,6 +87,12 @@ def cpp_writer_model(streams, ops):
             if op[1] != cur or not streams[cur]:
                 return i
             cur += 1
+        elif kind == "CT":
+            # reader.CopyTo(writer): the writer's steps from the first to the last, in order - acceptable only to a writer
+            # that has not got past its first step (more items for a first step that is a stream are in order)
+            if cur != 0:
+                return i
+            cur = n
         elif kind == "CW":
             if cur != n:
                 return i
@@ -480,9 +486,11 @@ def draw_cpp_reader(streams):
     return d
 
 
-def draw_cpp_writer(streams):
+def draw_cpp_writer(streams, ct=False):
     n = len(streams)
     def d(r):
+        if ct and r.chance(0.1):
+            return ["CT"] if r.chance(0.5) else ["CT", r.choice([2, 3, 64])]
         if r.chance(0.12):
             return ["CW"]
         k = r.randrange(n)
@@ -515,6 +523,11 @@ def draw_py_reader(streams):
 
 def legal_cpp_writer(rng, streams):
     ops = []
+    if rng.fork("copyto").chance(0.15):
+        # the whole protocol in one CopyTo, possibly after a few items of a first step that is a stream
+        if streams[0]:
+            ops += [["W1", 0]] * rng.fork("copyto").randint(0, 2)
+        return ops + [["CT"], ["CW"]]
     for k, s in enumerate(streams):
         if not s:
             ops.append(["W1", k])
@@ -881,12 +894,15 @@ def model_task(task, ybin, root):
                 for h in range(H * 4):          # C++ histories cost microseconds each inside one harness process
                     hr = pr.fork("cw", h)
                     if h % 2 == 1:
-                        ops, mk = until_close(guided(hr, draw_cpp_writer(streams), lambda o: cpp_writer_model(streams, o), lambda o: o[0] == "CW", streams)), "guided"
+                        ops, mk = until_close(guided(hr, draw_cpp_writer(streams, ct=True), lambda o: cpp_writer_model(streams, o), lambda o: o[0] == "CW", streams)), "guided"
                     else:
-                        ops, mk = mutate(hr, legal_cpp_writer(hr, streams), n, lambda r: (["W1", r.randrange(n)] if r.chance(0.6) else (["E", r.randrange(n)] if r.chance(0.6) else ["CW"])))
+                        ops, mk = mutate(hr, legal_cpp_writer(hr, streams), n, lambda r: (["W1", r.randrange(n)] if r.chance(0.6) else (["E", r.randrange(n)] if r.chance(0.5) else (["CW"] if r.chance(0.6) else ["CT"]))))
                     stats["mut_" + mk] = stats.get("mut_" + mk, 0) + 1
                     ops = [o for o in ops if not (o[0] in ("WB", "E") and not streams[o[1]])]   # the harness has no batch/End call for non-stream steps
                     exp = cpp_writer_model(streams, ops)
+                    if any(o[0] == "CT" for o in ops):
+                        kk = "cpp_writer_histories_with_a_CopyTo_into_the_writer" + ("" if ops[0][0] == "CT" else "(not in its initial state)")
+                        stats[kk] = stats.get(kk, 0) + 1
                     cfmt = "ndjson" if hr.fork("fmt").chance(0.35) else "binary"
                     stats["cpp_histories_" + cfmt] = stats.get("cpp_histories_" + cfmt, 0) + 2
                     runs.append({"proto": proto.name, "op": "script", "input": 0, "script": [["mkW", cfmt]] + ops, "fmt": cfmt})
@@ -903,7 +919,7 @@ def model_task(task, ybin, root):
                 for h in range(8 if quick else 30):
                     hr = pr.fork("ckeep", h)
                     cfmt = "ndjson" if hr.chance(0.3) else "binary"
-                    ops = guided_keep_going(hr, draw_cpp_writer(streams), lambda o: cpp_writer_model(streams, o), lambda o: o[0] == "CW", streams)
+                    ops = guided_keep_going(hr, draw_cpp_writer(streams, ct=True), lambda o: cpp_writer_model(streams, o), lambda o: o[0] == "CW", streams)
                     ops = [o for o in ops if not (o[0] in ("WB", "E") and not streams[o[1]])]
                     runs.append({"proto": proto.name, "op": "script", "input": 0, "script": [["mkW", cfmt]] + ops, "fmt": cfmt, "keep_going": True})
                     meta.append(("cpp_writer_keep_going", ops, None, None))
